@@ -436,7 +436,10 @@ def load_program(repo=None, extra_defs=(), want_tool=True, cache=True):
                 os.replace(t, cfile)
             except OSError:
                 pass
+    from . import schema as _schema
+    renames = _schema.normalise(units)
     prog = Program(repo, units)
+    prog.renames = renames      # consistent renamings of fields / enumerators / internal functions mapped back to the schema names
     prog.lib_units = [u for u, _ in lib]
     prog.tool_units = [u for u, _ in tool] if want_tool else []
     prog.flags = flags
